@@ -30,7 +30,7 @@ CHECKS = {
         "technique": "property-based testing (rapid): generated formulas x graphs against an independent classical evaluator, plus metamorphic rewriting of the formula",
         "design_ref": "DESIGN.md §5 C01",
         "level_text": "Random profiles over the full declarative language (and/or/not/if-then-else, nested/atLeast/atMost, every atomic kind through a witness table) are validated against generated graphs; the reported (severity, shape, focus node) set must equal what a 150-line classical evaluator computes, and a meaning-preserving rewriting of each formula placed in the same profile must report the same nodes. Propositional formulas are decided on all 2^k truth assignments of their atoms. A further unit draws the arguments and the values of the atomic constraints themselves (patterns from a regular-expression grammar, lengths, integer and decimal bounds, lists, counts, property comparisons, in several YAML number spellings) and decides each atom and its negation by independent arithmetic. Exploration is the right level: the space of formulas x graphs is infinite and the oracle is executable.",
-        "level_note": "Atom meaning is taken from an auditable witness table (boundary values per kind) that a self-test confirms against the validator in every run; atoms under negation are single-valued (DESIGN §6 I1). Trusted: OPA, json-gold, yaml.v3, rapid.",
+        "level_note": "Units added after seeded changes: generated atoms (arguments and values drawn, decided by independent arithmetic), several atoms over ONE property joined by or/and, operands that cannot fail, conditionals over quantified conditions, cases validated while other goroutines compile, all four entry-point routes. Atom meaning is taken from an auditable witness table (boundary values per kind) that a self-test confirms against the validator in every run; atoms under negation are single-valued (DESIGN §6 I1). Trusted: OPA, json-gold, yaml.v3, rapid.",
         "rule": "case = (profile with 1-2 random formulas and optional rewritten twins, graph); propositional mode enumerates all truth assignments as target nodes, quantified mode draws graphs with cycles/shared children; non-trivial = the profile has >=1 connective or quantifier and some validation has both reported and unreported target nodes; distinct by sha1 of the case",
         "assumptions": TRUST + ["negated per-value atoms are generated over single-valued properties only (I1)", "atom semantics inside formulas come from the witness table; generated arguments and values are checked atom by atom (plain and negated), patterns through Go's regexp (the engine the policy language uses)", "one case in eight is validated while other goroutines compile: the schedule is not owned by the harness, the case is judged like a quiet one"],
         "units": [
@@ -55,7 +55,7 @@ CHECKS = {
         "technique": "property-based testing (rapid): generated unreadable inputs (strict prefixes, wrong encodings, non-JSON formats, JSON-LD-invalidating mutations) with the precondition confirmed by encoding/json and json-gold; oracle = error and no report",
         "design_ref": "DESIGN.md §5 C04",
         "level_text": "Unreadable data is generated by construction from valid generated documents (every strict prefix class, UTF-16/32 re-encodings, random bytes, YAML/RAML/XML/Turtle text, one JSON-LD-invalidating mutation out of 21) and passed to all four validating entry points and the acv CLI; each must return an error and no report. The precondition (no complete JSON value / JSON-LD rejects) is confirmed with the trusted libraries before the case is judged.",
-        "level_note": "'No complete JSON value' follows encoding/json's Decoder (first value), as the library itself uses. Remote @context documents are not generated (no network).",
+        "level_note": "Also: the same unreadable text handed to eight callers at once (two entries), mutations at the first or the last node of documents padded to a megabyte or carrying a thousand filler nodes. 'No complete JSON value' follows encoding/json's Decoder (first value), as the library itself uses. Remote @context documents are not generated (no network).",
         "rule": "case = (one of 3 fixed declarative profiles, entry point, data bytes of a stated class); every judged case is non-trivial (the input is confirmed unreadable); distinct by sha1 of the case; labels give the class x entry-point histogram",
         "assumptions": TRUST + ["json-gold's own Flatten is the reference for 'JSON-LD processing rejects it'"],
         "extra_builds": ["acv"],
@@ -66,7 +66,7 @@ CHECKS = {
         "technique": "property-based testing (rapid) with structured YAML/JSON mutation of the repository's fixtures and raw byte mutation; oracle = recover() around every entry point, exactly one of report/error, report is JSON; exhaustive table of node-less documents; native go fuzzing in the thorough tier",
         "design_ref": "DESIGN.md §5 C17",
         "level_text": "Profiles and data are produced by 1-3 structural mutations (delete/replace/duplicate/wrap/rename at a random YAML or JSON node, biased to @id/@type/@graph and source-map keys), byte-level mutations, random bytes and a table of hostile constants, seeded from the ~110 profile and ~570 data fixtures of the repository, and sent through Validate, ValidateWithConfiguration, CompileProfile, and CompileProfile followed by ValidateCompiled[WithConfiguration]. No call may panic, each returns exactly one of report or error, a report parses as JSON. Every node-less JSON-LD document of a table x 3 declarative profiles x 4 entry points must give conforms=true.",
-        "level_note": "'Never blocks' cannot be decided by testing: a call that does not return hits the run deadline and is reported as inconclusive (exit 2). Panics are attributed to the first frame inside the module.",
+        "level_note": "A shard that dies of a fatal runtime error with frames of the module (stack overflow, concurrent map writes) is a violation whose replay is the case that was being decided (persisted before every case); memory exhaustion and kills stay inconclusive. 'Never blocks' cannot be decided by testing: a call that does not return hits the run deadline and is reported as inconclusive (exit 2). Panics are attributed to the first frame inside the module.",
         "rule": "case = (profile text, data text, entry point); non-trivial = the call ended in an error (the input reached a rejection path) or is a node-less document case; distinct by sha1 of the case; labels = mutation operators and outcomes",
         "assumptions": TRUST + ["termination is decided by a bound: a call that has not returned after 120 s (VERIF_NORETURN_SECS) while a trivial control call returns at once is reported as c17-no-return; if the control stalls too, or memory exceeds 8 GiB, the run is inconclusive; non-returning cases are saved unshrunk", "YAML anchors and aliases (including an alias inside its own anchor) are part of the structured mutations"],
         "units": [
@@ -112,7 +112,7 @@ CHECKS = {
         "technique": "property-based testing (rapid) of generated schedules (operations dealt to 2-8 goroutines, GOMAXPROCS 1-16, yield points) run under the Go race detector; differential oracle = each operation's result when run alone",
         "design_ref": "DESIGN.md §5 C10",
         "level_text": "Generated mixes of Validate / ValidateWithConfiguration / CompileProfile / ValidateCompiled[WithConfiguration] on shared compiled profiles / compile-then-validate are released by a barrier in 2-8 goroutines with GOMAXPROCS in {1,2,4,16}; the binary is built with -race and any race report naming the module is a violation (signature = top frames), and every operation must return what it returned when run alone beforehand.",
-        "level_note": "The harness does not own the Go scheduler: interleavings are sampled, not enumerated. The race detector carries this check (it flags unsynchronised access on executed paths regardless of the interleaving that happened); logic races on correctly locked state are caught only if the schedule hits them. Race failures do not shrink (the detector reports a stack pair once per process); the replay re-runs the mix 50 times.",
+        "level_note": "Errors are compared by text (digit runs masked), not only by presence; half of the schedules run the concurrent phase first on texts the process has never seen. The harness does not own the Go scheduler: interleavings are sampled, not enumerated. The race detector carries this check (it flags unsynchronised access on executed paths regardless of the interleaving that happened); logic races on correctly locked state are caught only if the schedule hits them. Race failures do not shrink (the detector reports a stack pair once per process); the replay re-runs the mix 50 times.",
         "rule": "case = (profiles, documents, per-goroutine operation lists, GOMAXPROCS); non-trivial = >=2 goroutines each compile, or >=2 goroutines use the same compiled profile; distinct by sha1 of the case",
         "assumptions": TRUST + ["Go race detector (happens-before) as the data-race oracle"],
         "units": [unit("schedules", "^TestC10$", 8, 120, bin="race", gorace=True, timeout=(600, 3300), shrinktime="10s")],
@@ -231,7 +231,7 @@ CHECKS = {
         "technique": "exhaustive enumeration of (denied built-in x embedding position x call syntax) with a compiling control in the same slot, plus a census of every built-in registered in the linked OPA (ast.Builtins): each accepted call is evaluated in a helper process under strace and must make no AF_INET/AF_INET6 system call; random (built-in, position, syntax) triples by rapid",
         "design_ref": "DESIGN.md §5 C08",
         "level_text": "For http.send, net.lookup_ip_addr, opa.runtime, rego.parse_module and walk, every one of 17 embedding positions (top-level rego / regoModule / code+message, a helper function in rego_extensions called from a rule, an unused rule in rego_extensions, constraint-level rego / regoModule / code+message, inside nested, atLeast, atMost, and, or, not, if, then, else) x 10 call syntaxes (statement, =, :=, array/set/object comprehension, not, every, argument of another call, after the result assignment) is compiled: CompileProfile and Validate must fail with the engine's unsafe built-in error naming that built-in and no data-processing or evaluation event may be emitted; the same profile with count([1]) in the slot must compile (otherwise the embedding is vacuous and is counted, not judged). The built-in table is read from the linked engine, so a dependency bump changes the domain: every registered built-in gets a call built from its declared argument types; calls that compile are evaluated in a fresh traced process (strace -f -e trace=network) and must not create or connect an internet socket.",
-        "level_note": "The deny list itself is taken from the statement; the strace monitor is the generated backstop for network capability beyond the five names. The sandbox has no network, but the attempt is still a system call. The engine's Nondeterministic flag of accepted built-ins is reported in the labels for context.",
+        "level_note": "Also: the denied built-in substituted through `with f as <built-in>` (never written as a call), every table cell through ValidateWithConfiguration under three report configurations, and one denied text submitted by ten goroutines a few milliseconds apart. The deny list itself is taken from the statement; the strace monitor is the generated backstop for network capability beyond the five names. The sandbox has no network, but the attempt is still a system call. The engine's Nondeterministic flag of accepted built-ins is reported in the labels for context.",
         "rule": "case = (built-in, call text, position, syntax); every judged case is non-trivial; distinct by sha1 of the case; the denied table (5x17x10) and the census (all registered built-ins) are enumerated completely, vacuous embeddings and calls that do not type-check are discarded and counted",
         "assumptions": TRUST + ["strace reports every network system call of the traced helper process and its threads"],
         "exhaustive": True,
